@@ -1,6 +1,7 @@
 import PhononModel.Model.Symmetrize
 import PhononModel.Model.Wire
 import PhononModel.Model.GroupAverage
+import PhononModel.Model.SymmetrizeLoop
 open PhononModel PhononModel.Wire
 
 /-- flat `[a][b][3][3]` array ↦ function -/
@@ -47,7 +48,7 @@ def handle (line : String) : String :=
   let r : Option String := do
     let (op, c) ← c.str?
     match op with
-    | "fullsym" | "pyfullsym" | "permsym" | "transdiag" =>
+    | "fullsym" | "pyfullsym" | "permsym" | "transdiag" | "permsymloop" | "fullsymloop" =>
       let (L, c) ← c.nat?
       let (n, c) ← c.nat?
       let (v, c) ← c.rats? (n * n * 9)
@@ -57,13 +58,15 @@ def handle (line : String) : String :=
         | "fullsym" => fullSymF n L A
         | "pyfullsym" => pyFullSymF n L A
         | "permsym" => stage4 (permSym (n := n)) A
+        | "permsymloop" => stage4 (permSymLoop (n := n)) A
+        | "fullsymloop" => fullSymLoopF n L A
         | _ => stage4 (transDiag (n := n)) A
       pure (showRats (ofFC n n (thaw4 out)))
     | "wf" =>
       let ⟨_, _, _, T, c⟩ ← readTables c
       if !c.atEnd then none
       pure (toString T.wf)
-    | "compactsym" | "transposec" | "permsymc" | "expand" =>
+    | "compactsym" | "transposec" | "permsymc" | "expand" | "transposeloop" | "transposelooppinned" =>
       let (L, c) ← c.nat?
       let ⟨np, ns, _, T, c⟩ ← readTables c
       let (v, c) ← c.rats? (np * ns * 9)
@@ -72,6 +75,8 @@ def handle (line : String) : String :=
       match op with
       | "compactsym" => pure (showRats (ofFC np ns (thaw4 (compactSymF T L (freeze4 Φc)))))
       | "transposec" => pure (showRats (ofFC np ns (transposeC T Φc)))
+      | "transposeloop" => pure (showRats (ofFC np ns (transposeLoop T Φc)))
+      | "transposelooppinned" => pure (showRats (ofFC np ns (transposeLoopPinned T Φc)))
       | "permsymc" => pure (showRats (ofFC np ns (permSymC T Φc)))
       | _ => pure (showRats (ofFC ns ns (expand T Φc)))
     | "pj" | "pjwf" =>
